@@ -1,6 +1,7 @@
 package main
 
 import (
+	"runtime"
 	"fmt"
 	"net"
 	"net/http"
@@ -900,7 +901,7 @@ func init() {
 			return cs
 		},
 		func(e *vh.Env, c c20Conc, o *vh.Out) {
-			o.Need("histories_checked", "pool_ops")
+			o.Need("histories_checked", "pool_ops", "first_put_vs_shutdown_trials")
 			pool := loadbalancer.NewWebSocketPool(c.MaxIdle, 100, time.Hour)
 			defer pool.Shutdown()
 			var mu sync.Mutex
@@ -954,6 +955,50 @@ func init() {
 				}()
 			}
 			wg.Wait()
+			if c.Idx%3 == 0 {
+				// first Puts for backends the pool has not seen yet, racing Shutdown: once Shutdown has returned and the
+				// Puts are over, nothing the pool accepted is still open
+				for trial := 0; trial < 300; trial++ {
+					p2 := loadbalancer.NewWebSocketPool(c.MaxIdle, 100, time.Hour)
+					var start atomic.Bool
+					var wg2 sync.WaitGroup
+					conns := make([]*fakeConn, 4)
+					okPut := make([]bool, 4)
+					for g := 0; g < 4; g++ {
+						g := g
+						conns[g] = &fakeConn{id: 1000 + g}
+						wg2.Add(1)
+						go func() {
+							defer wg2.Done()
+							for !start.Load() {
+							}
+							for k := 0; k < (trial+g)%4; k++ {
+								runtime.Gosched()
+							}
+							okPut[g] = p2.Put(fmt.Sprintf("fresh%d", g), conns[g])
+						}()
+					}
+					wg2.Add(1)
+					go func() {
+						defer wg2.Done()
+						for !start.Load() {
+						}
+						for k := 0; k < trial%3; k++ {
+							runtime.Gosched()
+						}
+						p2.Shutdown()
+					}()
+					start.Store(true)
+					wg2.Wait()
+					o.Obs("first_put_vs_shutdown_trials", 1)
+					for g, f := range conns {
+						if okPut[g] && !f.isClosed() {
+							o.Viol("C20|pool-conc|accepted-conn-open-after-shutdown", fmt.Sprintf("max_idle=%d: the first Put for backend fresh%d ran alongside Shutdown, was accepted, and its connection is still open after both returned (trial %d)", c.MaxIdle, g, trial), nil)
+							return
+						}
+					}
+				}
+			}
 			o.Eval(1)
 			o.Obs("pool_ops", int64(len(hist)))
 			o.Distinct(fmt.Sprintf("%v|%d", c, len(hist)))
